@@ -918,4 +918,154 @@ theorem tokResolve_ref_depth_lt {n : Nat} {root : Mapping} {parts : List Token} 
                 simp only at h1
                 exact ⟨Nat.le_trans h1 h2, Nat.le_of_not_gt hd⟩
 
+/-! ## Small facts used by the reference-chain theorems -/
+
+theorem splitColon_of_not_mem {a : Str} (h : ':' ∉ a) : splitColon a = [a] := by
+  induction a with
+  | nil => rfl
+  | cons c cs ih =>
+    have hc : c ≠ ':' := fun e => h (by simp [e])
+    have hcs : ':' ∉ cs := fun m => h (List.mem_cons_of_mem _ m)
+    simp [splitColon, ih hcs, hc]
+
+/-- A path that is a single literal piece renders to itself (fuel ≥ 2). -/
+theorem slice_single_lit (k : Nat) (root : Mapping) (a : Str) (st : RState) :
+    slice (k+2) root [.lit a] st = .ok a := by
+  simp [slice_cons, tokResolve_lit, strLoop_succ, sliceFinish_succ, slice_nil, rawString,
+    Value.isStr, Value.isMap, Value.isSeq]
+
+theorem lookup_mem {k : Key} {v : Value} {es : List (Key × Value)} (h : lookup k es = some v) :
+    (k, v) ∈ es := by
+  induction es with
+  | nil => simp [lookup] at h
+  | cons kv es ih =>
+    obtain ⟨k', v'⟩ := kv
+    simp only [lookup] at h
+    by_cases hk : k' = k
+    · simp only [hk, if_true, Option.some.injEq] at h; simp [hk, h]
+    · simp only [hk, if_false] at h; exact List.mem_cons_of_mem _ (ih h)
+
+/-- One whole-value reference `${a}` (no `:` in `a`), unfolded: depth check, loop check, then the
+target value is interpolated until it is no longer a string / layer list, then once more. -/
+theorem interp_wholeRef (n : Nat) (root : Mapping) (s a : Str) (st : RState) (v0 : Value)
+    (hparse : Token.parse s = .ok (some (.ref [.lit a]))) (hcolon : ':' ∉ a)
+    (hget : root.get (.str a) = some v0) :
+    interp (n+6) root (.str s) st =
+      if st.depth + 1 > maxDepth then .error (.depth st.curKey)
+      else if a ∈ st.seen then .error .loop
+      else
+        match finalLoop (n+3) root v0 { st with depth := st.depth + 1, seen := a :: st.seen } with
+        | .error e => .error e
+        | .ok (v, st3) => interp (n+4) root v st3 := by
+  rw [interp_str, hparse]
+  simp only
+  rw [tokRender_succ, tokResolve_ref, slice_single_lit]
+  by_cases hd : st.depth + 1 > maxDepth
+  · simp only [hd, if_true]; rfl
+  · simp only [hd, if_false]
+    by_cases hs : a ∈ st.seen
+    · simp only [hs, if_true]
+    · simp only [hs, if_false, splitColon_of_not_mem hcolon, hget, descend_nil]
+
+/-- If a mapping interpolates successfully then every entry value does (at the same fuel, by
+fuel monotonicity), each starting from the *incoming* state. -/
+theorem interpEs_ok_all {n : Nat} {root : Mapping} {ck ok : List Key} {st : RState} :
+    ∀ {es : List (Key × Value)} {acc m : Mapping}, interpEs n root es ck ok st acc = .ok m →
+    ∀ k v, (k, v) ∈ es → ∃ x st', interp n root v (st.pushMappingKey k) = .ok (x, st') := by
+  induction n with
+  | zero => intro es acc m h; simp [interpEs] at h
+  | succ n ih =>
+    intro es acc m h k v hm
+    cases es with
+    | nil => simp at hm
+    | cons kv rest =>
+      obtain ⟨k0, v0⟩ := kv
+      rw [interpEs_cons] at h
+      rcases hi : interp n root v0 (st.pushMappingKey k0) with e | ⟨v', st'⟩
+      · simp [hi] at h
+      · simp only [hi] at h
+        cases hfl : flat v' st' with
+        | error e => simp [hfl] at h
+        | ok v'' =>
+          simp only [hfl] at h
+          cases hins : acc.insertImpl k0 v'' (decide (k0 ∈ ck)) (decide (k0 ∈ ok)) with
+          | error e => simp [hins] at h
+          | ok acc' =>
+            simp only [hins] at h
+            rcases List.mem_cons.1 hm with heq | hrest
+            · simp only [Prod.mk.injEq] at heq
+              obtain ⟨rfl, rfl⟩ := heq
+              exact ⟨v', st', interp_fuel_mono _ _ _ hi (by simp)⟩
+            · obtain ⟨x, st1, hx⟩ := ih h k v hrest
+              exact ⟨x, st1, interp_fuel_mono _ _ _ hx (by simp)⟩
+
+/-- If a sequence interpolates successfully then every element does, each from the incoming
+state (with its own index pushed). -/
+theorem interpL_ok_all {n : Nat} {root : Mapping} {st : RState} :
+    ∀ {l : List Value} {idx : Nat} {xs : List Value}, interpL n root l idx st = .ok xs →
+    xs.length = l.length ∧ ∀ i (h : i < l.length) (h' : i < xs.length),
+      ∃ st', interp n root l[i] (st.pushListIndex (idx + i)) = .ok (xs[i], st') := by
+  induction n with
+  | zero => intro l idx xs h; simp [interpL] at h
+  | succ n ih =>
+    intro l idx xs h
+    cases l with
+    | nil =>
+      simp only [interpL_nil, Except.ok.injEq] at h
+      subst h; simp
+    | cons v vs =>
+      rw [interpL_cons] at h
+      rcases hi : interp n root v (st.pushListIndex idx) with e | ⟨x, st'⟩
+      · simp [hi] at h
+      · simp only [hi] at h
+        cases hr : interpL n root vs (idx + 1) st with
+        | error e => simp [hr] at h
+        | ok ys =>
+          simp only [hr, Except.ok.injEq] at h
+          subst h
+          obtain ⟨hlen, hall⟩ := ih hr
+          refine ⟨by simp [hlen], ?_⟩
+          intro i hi1 hi2
+          cases i with
+          | zero => exact ⟨st', interp_fuel_mono _ _ _ hi (by simp)⟩
+          | succ j =>
+            simp only [List.length_cons, Nat.add_lt_add_iff_right] at hi1 hi2
+            obtain ⟨st1, h1⟩ := hall j hi1 hi2
+            refine ⟨st1, ?_⟩
+            have : idx + (j + 1) = idx + 1 + j := by omega
+            simp only [List.getElem_cons_succ, this]
+            exact interp_fuel_mono _ _ _ h1 (by simp)
+
+/-- Conversely: elements that interpolate one by one (each from the incoming state) make the
+whole sequence interpolate to exactly those results — nothing one element does to its copy of
+the state is visible to another. -/
+theorem interpL_of_all {n : Nat} {root : Mapping} {st : RState} :
+    ∀ (l : List Value) (idx : Nat) (xs : List Value), xs.length = l.length →
+    (∀ i (h : i < l.length) (h' : i < xs.length),
+      ∃ st', interp n root l[i] (st.pushListIndex (idx + i)) = .ok (xs[i], st')) →
+    interpL (n + l.length + 1) root l idx st = .ok xs := by
+  intro l
+  induction l with
+  | nil => intro idx xs hlen _; cases xs with
+    | nil => rfl
+    | cons _ _ => simp at hlen
+  | cons v vs ih =>
+    intro idx xs hlen hall
+    cases xs with
+    | nil => simp at hlen
+    | cons x xs =>
+      simp only [List.length_cons, Nat.add_right_cancel_iff] at hlen
+      obtain ⟨st0, h0⟩ := hall 0 (by simp) (by simp)
+      have hrest := ih (idx + 1) xs hlen (by
+        intro i h h'
+        obtain ⟨st1, h1⟩ := hall (i + 1) (by simpa using h) (by simpa using h')
+        refine ⟨st1, ?_⟩
+        have : idx + 1 + i = idx + (i + 1) := by omega
+        rw [this]; simpa using h1)
+      have e : n + (v :: vs).length + 1 = (n + vs.length + 1) + 1 := by simp; omega
+      rw [e, interpL_cons]
+      have h0' := interp_fuel_mono_le (m := n + vs.length + 1) (by omega) _ _ _ h0 (by simp)
+      simp only [Nat.add_zero, List.getElem_cons_zero] at h0'
+      simp only [h0', hrest]
+
 end Reclass
